@@ -531,3 +531,33 @@ def check(case, res, ctx):
         if not (cited & want):
             return [{"key": f"C17:wrong-row:{kind}", "what": f"the error belongs to row {sorted(want)} but the message cites {sorted(cited)}: {msg[:200]!r}"}]
     return []
+
+
+# ----------------------------------------------------------------------------- keys reported on the unchanged tree
+# (documentation only, never used to filter anything; each was confirmed with the repro.py of the directory named)
+KNOWN_DEFECTS = {
+    "C17:internal-error:TypeError:survey.py:insert_output_values":
+        "label + label::<other> + label::<default language> all filled, settings default_language set -> nested label dict; "
+        "fix /verif/fixes/unsuffixed-and-default-language-cell",
+    "C17:internal-error:TypeError:section.py:validate":
+        "begin group/repeat/loop immediately followed by its end -> children None iterated; fix /verif/fixes/empty-group",
+    "C17:internal-error:KeyError:xls2json.py:workbook_to_json":
+        "select_multiple ${q} (choices from a repeat) -> choices['${q}']; fix /verif/fixes/select-multiple-from-repeat-ref",
+    "C17:internal-error:KeyError:xls2json.py:add_choices_info_to_question":
+        "select_one_external without choice_filter; finding /verif/fixes/select-one-external-unfiltered (a test asserts the KeyError)",
+    "C17:internal-error:TypeError:xls2json.py:workbook_to_json":
+        "osm <list> not defined on an existing osm sheet; fix /verif/fixes/osm-unknown-list",
+    "C17:internal-error:AttributeError:section.py:generate_repeating_template":
+        "xml-external / csv-external row inside a repeat; fix /verif/fixes/external-instance-in-repeat",
+    "C17:internal-error:ExpatError:utils.py:node":
+        "U+000B (any character XML 1.0 cannot carry) in a label that has a ${reference}; finding /verif/fixes/c17-control-char-with-reference",
+    "C17:no-row:duplicate-name": "finding /verif/fixes/c17-no-row-duplicate-name",
+    "C17:no-row:unknown-ref": "finding /verif/fixes/c17-no-row-unknown-ref",
+    "C17:no-row:ambiguous-ref": "finding /verif/fixes/c17-no-row-ambiguous-ref",
+    "C17:no-row:unknown-type": "finding /verif/fixes/c17-no-row-unknown-type",
+    "C17:no-row:bad-parameters": "finding /verif/fixes/c17-no-row-bad-parameters",
+}
+# Crashes seen while writing the families but outside the property's domain (not generated, not demanded): headers that
+# override generated attributes (bind::nodeset, body::nodeset on a repeat), three-level headers on a plain column
+# (label::en::x), the internal type name `entity` as a survey type, and dict input with whitespace-only or int cells
+# (no spreadsheet reader produces those).  Not an error: a `note` without a name (one is generated), type `end` (metadata).
